@@ -414,7 +414,8 @@ def gen_rmeta(rng, env, nfields=None, evolve=True, allow_named=True, depth=2):
                     t = ("opt", t)
                     opt = True
                 f = {"name": nm, "ty": t, "opt": opt, "transient": None}
-                fields.append(f)
+                # the declaration order is free: an added field may sit anywhere in the struct
+                fields.insert(rng.randrange(len(fields) + 1) if rng.random() < 0.7 else len(fields), f)
                 steps.append(("add", nm, default_for(rng, t, env)))
             elif c < 0.6:
                 # FieldMadeOptional on a present, non-optional, non-transient field
